@@ -71,6 +71,7 @@ class SimDateTime(datetime):
 _installed = False
 _orig_get_task_delay = run_mod.get_task_delay
 DELAY_LOG: List[Any] = []
+UUID_COUNTER: Dict[str, int] = {"n": 0}
 
 
 def install_seams() -> None:
@@ -95,6 +96,14 @@ def install_seams() -> None:
         return res
 
     run_mod.get_task_delay = recording_get_task_delay  # type: ignore[assignment]
+    # ScheduledTask's default schedule_id is uuid4().hex: behind the ids seam
+    import taskiq.scheduler.scheduled_task.v2 as v2_mod
+
+    def det_uuid4() -> Any:
+        UUID_COUNTER["n"] += 1
+        return types.SimpleNamespace(hex=f"{UUID_COUNTER['n']:032x}")
+
+    v2_mod.uuid = types.SimpleNamespace(uuid4=det_uuid4)  # type: ignore[attr-defined]
     if "simtasks" not in sys.modules:
         sys.modules["simtasks"] = types.ModuleType("simtasks")
 
@@ -440,6 +449,7 @@ def simulate(script: dict) -> SRun:
     install_seams()
     reset_globals()
     DELAY_LOG.clear()
+    UUID_COUNTER["n"] = 0
     world = SchedWorld(script)
     loop = world.loop
     CLOCK["epoch_us"] = script["start"]["epoch_us"]
